@@ -13,7 +13,8 @@ EXTENDS ValsetPref, TLC, Json
 
 CONSTANTS Bal0,      \* initial balances, one per delegator
           NVal,      \* validators
-          Amounts,   \* amounts of delegate / undelegate / stake / unstake / lock
+          Amounts,   \* amounts of delegate / undelegate
+          EnvAmounts, \* amounts of stake / unstake / lock
           Lists,     \* the preference lists submitted
           Lim        \* [kind -> calls of that kind per behaviour] and steps
 
@@ -38,22 +39,27 @@ P(v, w) == [v |-> v, w |-> w]
 
 \* the lists a delegator may submit: well formed ones with one to three validators, weights with two and
 \* three digits, and one list per way of being malformed
-ListsA == { <<P(1, 1000)>>, <<P(2, 1000)>>, <<P(1, 500), P(2, 500)>>, <<P(2, 250), P(3, 750)>>,
-            <<P(1, 333), P(2, 667)>>, <<P(1, 60), P(3, 940)>>, <<P(1, 200), P(2, 300), P(3, 500)>>,
-            <<P(1, 12), P(2, 988)>>,
-            <<>>, <<P(1, 500), P(1, 500)>>, <<P(1, 500), P(4, 500)>>, <<P(1, 400), P(2, 500)>>, <<P(1, 600), P(2, 500)>>,
-            <<P(1, 1000), P(2, 0)>>, <<P(1, 334), P(2, 333), P(3, 333)>>, <<P(1, 1250), P(2, -250)>> }
-ListsB == { <<P(1, 1000)>>, <<P(1, 500), P(2, 500)>>, <<P(2, 250), P(3, 750)>>, <<P(1, 333), P(2, 667)>>,
-            <<P(3, 1000)>>, <<>>, <<P(1, 500), P(4, 500)>>, <<P(1, 400), P(2, 500)>> }
-ListsC == { <<P(1, 1000)>>, <<P(2, 1000)>>, <<P(1, 500), P(2, 500)>>, <<P(1, 250), P(2, 750)>>, <<P(1, 400), P(2, 500)>> }
+Bad == { <<>>, <<P(1, 500), P(1, 500)>>, <<P(1, 500), P(4, 500)>>, <<P(1, 400), P(2, 500)>>, <<P(1, 600), P(2, 500)>>,
+         <<P(1, 1000), P(2, 0)>>, <<P(1, 1250), P(2, -250)>> }
+ListsA == { <<P(1, 1000)>>, <<P(1, 500), P(2, 500)>>, <<P(2, 250), P(3, 750)>>, <<P(3, 1000)>> } \cup Bad
+ListsB == { <<P(1, 1000)>>, <<P(2, 1000)>>, <<P(1, 333), P(2, 667)>>, <<P(1, 60), P(3, 940)>>, <<P(1, 200), P(2, 300), P(3, 500)>>,
+            <<P(1, 12), P(2, 988)>>, <<P(1, 334), P(2, 333), P(3, 333)>>, <<P(1, 505), P(2, 495)>> } \cup Bad
+ListsC == { <<P(1, 1000)>>, <<P(1, 500), P(2, 500)>>, <<P(2, 1000)>>, <<P(1, 400), P(2, 500)>> }
 
 Kinds == {"set", "delegate", "undel_old", "undelegate", "redelegate", "withdraw", "bonded",
           "stake", "unstake", "lock", "unlock", "synth", "accrue", "mature"}
-LimA == [k \in Kinds |-> CASE k \in {"set", "delegate"} -> 2 [] k \in {"undel_old", "unlock", "synth", "mature"} -> 1 [] OTHER -> 1]
-        @@ [steps |-> 5]
-LimB == [k \in Kinds |-> CASE k \in {"set", "delegate", "undelegate", "redelegate"} -> 2 [] OTHER -> 1] @@ [steps |-> 6]
-LimC == [k \in Kinds |-> CASE k \in {"delegate", "undelegate", "stake"} -> 2 [] k \in {"lock", "unlock", "synth", "bonded", "undel_old"} -> 0 [] OTHER -> 1]
-        @@ [steps |-> 7]
+LimOf(two, none, steps) == [k \in Kinds |-> IF k \in two THEN 2 ELSE IF k \in none THEN 0 ELSE 1] @@ [steps |-> steps]
+\* A: preferences, delegation, undelegation, redelegation, rewards (no locks)
+LimA == LimOf({"delegate"}, {"lock", "unlock", "synth", "bonded", "unstake"}, 6)
+LimA7 == LimOf({"delegate", "undelegate"}, {"lock", "unlock", "synth", "bonded"}, 7)
+\* B: the shapes of preference lists (rounding, malformed lists) with one delegation
+LimB == LimOf({"set"}, {"lock", "unlock", "synth", "bonded", "stake", "unstake", "accrue", "mature", "withdraw", "undelegate", "undel_old"}, 4)
+LimB2 == LimOf({"set", "delegate"}, {"lock", "unlock", "synth", "bonded", "stake", "unstake", "accrue", "mature", "withdraw", "undel_old"}, 5)
+\* C: locks and DelegateBondedTokens
+LimC == LimOf({"lock", "bonded"}, {"undelegate", "undel_old", "redelegate", "accrue", "withdraw", "mature"}, 5)
+LimC6 == LimOf({"lock", "bonded"}, {"undel_old", "redelegate", "mature"}, 6)
+\* D: two delegators
+LimD == LimOf({"delegate", "set"}, {"lock", "unlock", "synth", "bonded", "undel_old", "mature"}, 5)
 B1 == <<4>>
 B2 == <<4, 2>>
 B3 == <<8>>
@@ -143,13 +149,17 @@ SplitOf(d, x) ==
     ELSE ProRata(d, x)
 \* no validator without record would receive nothing (the current tree then leaves an empty record, D3)
 SplitClean(d, x) == /\ \A v \in Touched(d) : SplitOf(d, x)[v] > 0 \/ rec[d][v]
+                    \* whether a validator that receives nothing is touched (and pays its pending rewards) is left open
+                    /\ \A v \in Touched(d) : SplitOf(d, x)[v] > 0 \/ pend[d][v] = 0
                     /\ pref[d] = <<>> => ProRataExact(d, x)
 
 DelegateOutcome(d, x) ==
     LET inc == SplitOf(d, x) IN
     [inc |-> inc, rec |-> [v \in Vals |-> rec[d][v] \/ inc[v] > 0], pn |-> PayOut(d, Touched(d))]
 
-MCSet == \E d \in Dels, p \in Lists : \E s \in Perms(RefStored(p)) :
+Orders(d, p) == IF ListAccepted(d, p) THEN Perms(RefStored(p)) ELSE {RefStored(p)}
+
+MCSet == \E d \in Dels, p \in Lists : \E s \in Orders(d, p) :
     LET c == [e |-> "set", d |-> d, ok |-> ListAccepted(d, p), prefs |-> p, shape |-> ShapeOf(p)] IN
     /\ SetPref(c, [stored |-> s])
     /\ Book(c, WhyNot(d, p), ~ListUnclear(d, p) /\ \A i \in 1..Len(p) : ~Tie(p[i].w))
@@ -158,9 +168,11 @@ MCDelegate == \E d \in Dels, x \in Amounts :
     LET ok == Basis(d) /\ x <= bal[d]
         c == [e |-> "delegate", d |-> d, ok |-> ok, x |-> x] IN
     /\ Delegate(c, IF ok THEN DelegateOutcome(d, x) ELSE [none |-> 0])
-    /\ Book(c, IF ~Basis(d) THEN "no-basis" ELSE "balance", ok => SplitClean(d, x))
+    \* balance < x <= balance + pending rewards: whether it works depends on the order of the payouts
+    /\ Book(c, IF ~Basis(d) THEN "no-basis" ELSE "balance",
+            (ok => SplitClean(d, x)) /\ (x <= bal[d] \/ x > bal[d] + Payable(d)))
 
-MCUndelOld == \E d \in Dels, x \in Amounts :
+MCUndelOld == \E d \in Dels, x \in EnvAmounts :
     LET c == [e |-> "undel_old", d |-> d, ok |-> FALSE, x |-> x] IN
     /\ UndelegateDisabled(c, [none |-> 0])
     /\ Book(c, "disabled", TRUE)
@@ -192,7 +204,7 @@ RedelegateExact(d, p, s) ==
     /\ \A i \in 1..Len(s) : (s[i].w * SetStake(d)) % WUnit = 0
     /\ \A v \in ExistingSet(d) : del[d][v] > 0
 
-MCRedelegate == \E d \in Dels, p \in Lists : \E s \in Perms(RefStored(p)) :
+MCRedelegate == \E d \in Dels, p \in Lists : \E s \in Orders(d, p) :
     LET E == ExistingSet(d)
         o == RedelegateOutcome(d, p, s)
         based == E # {} /\ \A v \in E : rec[d][v]
@@ -227,13 +239,13 @@ MCBonded == \E d \in Dels, id \in LockIds \cup {9} :
     /\ DelegateBonded(c, IF ok THEN DelegateOutcome(d, x) ELSE [none |-> 0])
     /\ Book(c, WhyNotLock(d, id), ok => SplitClean(d, x))
 
-MCStake == \E d \in Dels, v \in Vals, x \in Amounts :
+MCStake == \E d \in Dels, v \in Vals, x \in EnvAmounts :
     LET ok == x <= bal[d]
         c == [e |-> "stake", d |-> d, ok |-> ok, v |-> v, x |-> x] IN
     /\ DirectStake(c, IF ok THEN [rec |-> [rec[d] EXCEPT ![v] = TRUE], pn |-> PayOut(d, {v})] ELSE [none |-> 0])
-    /\ Book(c, "balance", TRUE)
+    /\ Book(c, "balance", x <= bal[d] \/ x > bal[d] + Payable(d))
 
-MCUnstake == \E d \in Dels, v \in Vals, x \in Amounts :
+MCUnstake == \E d \in Dels, v \in Vals, x \in EnvAmounts :
     LET ok == rec[d][v] /\ x <= del[d][v]
         c == [e |-> "unstake", d |-> d, ok |-> ok, v |-> v, x |-> x] IN
     /\ rec[d][v]                                   \* unstaking from nobody: not interesting
@@ -241,7 +253,7 @@ MCUnstake == \E d \in Dels, v \in Vals, x \in Amounts :
     /\ Book(c, "too-much", TRUE)
 
 \* one lock per (owner, denomination, duration): a second one would be merged into the first by x/lockup
-MCLock == \E d \in Dels, base \in BOOLEAN, long \in BOOLEAN, x \in Amounts :
+MCLock == \E d \in Dels, base \in BOOLEAN, long \in BOOLEAN, x \in EnvAmounts :
     LET ok == base => x <= bal[d]
         c == [e |-> "lock", d |-> d, ok |-> ok, x |-> x, base |-> base, long |-> long, lock |-> cnt["lock"] + 1] IN
     /\ ok
